@@ -95,12 +95,29 @@ FoptCase(k) ==
   IN [ol |-> ol, h |-> WithOpts([BaseHdr(v) EXCEPT !.flags = f, !.ack = IF HasFlag(f, ACK) THEN NZ4 ELSE Zero4], OptArea(ol))]
 NFopt == 256 * NFseq * 2
 
+\* ---- kind: one option of every unknown kind (data lengths 0..4), SACK with 1..4 blocks, MSS / window-scale value
+\* boundaries, each alone and followed by a standard MSS option; IPv4 SYN and IPv6 SYN+ACK
+KnownKinds == {0, 1, 2, 3, 4, 5, 8}
+UnkKind(j) == IF j <= 2 THEN 5 + j ELSE 6 + j          \* 6, 7, 9, 10, ..., 255
+KindOpts == [i \in 1..(249 * 5) |-> [k |-> "unk", kind |-> UnkKind(((i - 1) \div 5) + 1), data |-> Rep(5, (i - 1) % 5)]]
+             \o [n \in 1..4 |-> [k |-> "sack", n |-> n]]
+             \o [i \in 1..8 |-> [k |-> "mss", v |-> <<0, 1, 255, 256, 536, 1459, 65534, 65535>>[i]]]
+             \o [i \in 1..6 |-> [k |-> "ws", v |-> <<0, 1, 13, 14, 15, 255>>[i]]]
+NKind == Len(KindOpts) * 2 * 2
+KindCase(k) ==
+  LET o == KindOpts[(k % Len(KindOpts)) + 1]  r == k \div Len(KindOpts)
+      os == IF r % 2 = 0 THEN <<o>> ELSE <<o, [k |-> "mss", v |-> 1460]>>
+      ol == Padded(os, 2)
+      six == (r \div 2) % 2 = 1
+  IN [ol |-> ol, h |-> WithOpts([BaseHdr(IF six THEN 6 ELSE 4) EXCEPT !.flags = IF six THEN SYN + ACK ELSE SYN, !.ack = IF six THEN NZ4 ELSE Zero4], OptArea(ol))]
+
 CaseOf(k) == CASE Fam = "hdr4" -> [link |-> "eth", h |-> Hdr4(k), ol |-> StdOpts]
                [] Fam = "hdr6" -> [link |-> "eth", h |-> Hdr6(k), ol |-> StdOpts]
                [] Fam = "ttl"  -> [link |-> TtlCase(k).link, h |-> TtlCase(k).h, ol |-> StdOpts]
                [] Fam = "opt"  -> [link |-> "eth", h |-> OptCase(k).h, ol |-> OptCase(k).ol]
                [] Fam = "fopt" -> [link |-> "eth", h |-> FoptCase(k).h, ol |-> FoptCase(k).ol]
-NOf == CASE Fam = "hdr4" -> NHdr4 [] Fam = "hdr6" -> NHdr6 [] Fam = "ttl" -> NTtl [] Fam = "opt" -> NOpt [] Fam = "fopt" -> NFopt
+               [] Fam = "kind" -> [link |-> "eth", h |-> KindCase(k).h, ol |-> KindCase(k).ol]
+NOf == CASE Fam = "hdr4" -> NHdr4 [] Fam = "hdr6" -> NHdr6 [] Fam = "ttl" -> NTtl [] Fam = "opt" -> NOpt [] Fam = "fopt" -> NFopt [] Fam = "kind" -> NKind
 
 DevSets == SUBSET AllD03 \ {{}}
 Emit(k) ==
